@@ -80,6 +80,17 @@ def run(ctx):
     g = Gen(ctx.seed * 1000003 + 2)
     n = 150 if ctx.tier == 'quick' else 5000
     worlds = [render('c02-%d' % i, make_spec(g, ('nosafn',) if g.r.random() < 0.5 else ())) for i in range(n)]
+    from gen import Call
+    for i, (a, b) in enumerate([(b'a\n---\nb', b'a\n/-/-/-/\nb'), (b'/-/-/-/', b'---'), (b'x\n/-/-/-/\n', b'x\n---\n'), (b'---\n---', b'---\n/-/-/-/')]):
+        spec = dict(cfgs=[cfg_line(1, 'snaps')], execs=[(b'TestSwap', [(1, Call('sasnap', a))])], flags=set(),
+                    mode=NOUPD[i % len(NOUPD)], seed=i)
+        w = render('c02-swap-%d' % i, spec)
+        # replace the generated mutation by the exact swap
+        for j, op in enumerate(w.ops):
+            if op.startswith('sasnap 1 2 '):
+                w.ops[j] = 'sasnap 1 2 ' + core.hx(b)
+                w.expect[j] = ('standalone-token-swap-reported', suites.exp_one_error_no_write)
+        worlds.append(w)
     run_suite(ctx, 'match.mismatch', worlds, known=known)
     # colours on: the report must still be non-empty (no model: ANSI layout is not modelled)
     gc = Gen(ctx.seed * 1000003 + 22)
